@@ -59,7 +59,8 @@ def eval_call(self, st, node):
                             kwargs["**"] = v
                     else:
                         kwargs[kw.arg] = v
-                if ((isinstance(fn, Top) and fn.domain is None) or (isinstance(fn, Builtin) and isinstance(node.func, ast.Name) and fn.name == node.func.id)) \
+                if ((isinstance(fn, Top) and fn.domain is None) or (isinstance(fn, ModuleVal) and not isinstance(fn.mod, Module)) or
+                        (isinstance(fn, Builtin) and isinstance(node.func, ast.Name) and fn.name == node.func.id)) \
                         and isinstance(node.func, ast.Name) and node.func.id in self.stubs and callable(self.stubs[node.func.id]):
                     # a module-level alias the index cannot resolve (NAME = module.attr): the harness stub by that name
                     res.extend(self.stubs[node.func.id](self, s3, list(args), kwargs, node))
